@@ -128,6 +128,11 @@ def build(cfg):
                 if sub.get("align_to") is not None:
                     d.align_to(sub["align_to"])
                 d.add(bus, name=sub.get("name"), addr=sub.get("addr"))
+                if cfg.get("refusals"):
+                    try:
+                        d.add(bus)          # offered a second time: refused, and the window it already has stays
+                    except ValueError:
+                        pass
             m.submodules[uid("cdec")] = d
             return d.bus
         raise KeyError(kind)
@@ -152,6 +157,11 @@ def build(cfg):
         if sub.get("align_to") is not None:
             root.align_to(sub["align_to"])
         root.add(bus, name=sub.get("name"), addr=sub.get("addr"))
+        if cfg.get("refusals"):
+            try:
+                root.add(bus)
+            except ValueError:
+                pass
     b = root.bus
     inputs = [("adr", b.adr), ("cyc", b.cyc), ("stb", b.stb), ("we", b.we), ("sel", b.sel), ("dat_w", b.dat_w)] + extra_inputs
     probes = [("ack", b.ack), ("dat_r", b.dat_r)]
@@ -499,7 +509,8 @@ def configs(tier):
             continue
         pairs.append(dict(c, b2b=True, depth=1 if quick else 2, all_sel=False))
     twice = [dict(c, elab_twice=True) for c in out[1::5]]
-    return out + pairs + twice
+    refusals = [dict(c, refusals=True) for c in out[2::5]]
+    return out + pairs + twice + refusals
 
 
 def run_config(cfg, tier, seed):
